@@ -112,6 +112,10 @@ def lock_held_at(c: Ctx, u: Unit, node: ast.AST, _seen: set | None = None, _chai
         return True, []  # recursion: decided by the other call sites
     seen.add(u.key)
     callers = c.cg.callers(u)
+    if not callers and u.key in getattr(c.prog, 'folded_kept', set()):
+        # a new public method whose every call site inside the library was folded into the caller: what holds at its call sites is decided at the folded copies
+        # (callers outside the library are outside the analysis, as for every public method)
+        return True, []
     if not callers:
         return False, chain
     for cu, call in callers:
@@ -122,6 +126,78 @@ def lock_held_at(c: Ctx, u: Unit, node: ast.AST, _seen: set | None = None, _chai
         if not ok:
             return False, ch
     return True, []
+
+
+def task_completion_barriers(u: Unit, g, spawn: ast.Call) -> set[int]:
+    """CFG nodes that wait for the task created by *spawn* (`create_task(...)`) until it has finished, in a way that forwards a cancellation of the waiter to the task:
+    `await t` for the local the task is bound to, or the head of a loop `for x in C: await x` (no break) over the container C the task was put into (bound to a name first
+    or appended / stored directly)."""
+    st = stmt_of(spawn)
+    names: set[str] = set()
+    containers: set[str] = set()
+    par = parent(spawn)
+    if isinstance(st, (ast.Assign, ast.AnnAssign)) and (st.value is spawn):
+        for t in (st.targets if isinstance(st, ast.Assign) else [st.target]):
+            if isinstance(t, ast.Name):
+                names.add(t.id)
+            elif isinstance(t, ast.Subscript):
+                containers.add(U(t.value))
+    if isinstance(par, ast.Call) and call_name(par) in ('append', 'add') and isinstance(par.func, ast.Attribute):
+        containers.add(U(par.func.value))
+    for n in own_nodes(u.node):
+        if isinstance(n, ast.Call) and call_name(n) in ('append', 'add') and isinstance(n.func, ast.Attribute) and n.args and isinstance(n.args[0], ast.Name) and n.args[0].id in names:
+            containers.add(U(n.func.value))
+        if isinstance(n, ast.Assign) and isinstance(n.targets[0], ast.Subscript) and any(isinstance(x, ast.Name) and x.id in names for x in ast.walk(n.value)):
+            containers.add(U(n.targets[0].value))
+    out: set[int] = set()
+    for n in g.live_nodes():
+        if n.kind == 'stmt' and n.ast is not None:
+            for x in ast.walk(n.ast):
+                if isinstance(x, ast.Await) and isinstance(x.value, ast.Name) and x.value.id in names:
+                    out.add(n.id)
+        if n.kind == 'for' and isinstance(n.ast, ast.For) and isinstance(n.ast.target, ast.Name) and U(n.ast.iter) in containers | {f'list({c_})' for c_ in containers} | {f'{c_}.values()' for c_ in containers} | {f'{c_}.keys()' for c_ in containers}:
+            v = n.ast.target.id
+            aw = [x for x in ast.walk(n.ast) if isinstance(x, ast.Await)]
+            if len(aw) == 1 and isinstance(aw[0].value, ast.Name) and aw[0].value.id == v and not any(isinstance(x, ast.Break) for x in ast.walk(n.ast)):
+                out.add(n.id)
+    return out
+
+
+def serial_task_discipline(c: Ctx, u: Unit, g, spawn: ast.Call, all_spawns: list[ast.Call], flag: str) -> list | None:
+    """On a bus where *flag* (`self.parallel_handlers`) is false: is the task created by *spawn* always awaited to completion before another handler task is created and before
+    the function returns?  Then handlers run one at a time although each has a task of its own.  Returns None when that holds, else a witness path."""
+    from sa.cfg import search
+
+    barriers = task_completion_barriers(u, g, spawn)
+    if not barriers:
+        return []
+    spawn_nodes = {n.id for sp in all_spawns for n in g.nodes_of(stmt_of(sp))}
+
+    def post(n, env):
+        # emptiness of the containers: appended to -> non-empty, cleared -> empty
+        if n.kind == 'stmt' and n.ast is not None:
+            for x in ast.walk(n.ast):
+                if isinstance(x, ast.Call) and isinstance(x.func, ast.Attribute) and isinstance(x.func.value, ast.Name):
+                    if x.func.attr in ('append', 'add'):
+                        env[x.func.value.id] = 'Ty'
+                    elif x.func.attr == 'clear':
+                        env[x.func.value.id] = 'F'
+
+    facts = Facts(lambda a: a == flag or a.isidentifier(), cg=c.cg, unit=u, post=post)
+    for start in g.nodes_of(stmt_of(spawn)):
+        p = search([(start, tuple(sorted({flag: 'F'}.items())))],
+                   is_target=lambda n, d: (n is not start and n.id in spawn_nodes) or n.kind == 'exit' or (n is start and False),
+                   is_barrier=lambda n, d: n.id in barriers,
+                   edge_ok=lambda n, e, d: None if e.is_exc else facts.edge_ok(n, e, d), transfer=facts.transfer)
+        if p is None:
+            # the loop can come back to the creation itself: that is "another task created" too
+            back = search([(s_.dst, tuple(sorted(facts.transfer(start, {flag: 'F'}).items()))) for s_ in start.succ if not s_.is_exc],
+                          is_target=lambda n, d: n is start, is_barrier=lambda n, d: n.id in barriers,
+                          edge_ok=lambda n, e, d: None if e.is_exc else facts.edge_ok(n, e, d), transfer=facts.transfer)
+            p = back
+        if p is not None:
+            return p
+    return None
 
 
 def eq_atom(a: str, b: str) -> str:
